@@ -75,14 +75,26 @@ func (r *Report) Note(s string) {
 	}
 	r.mu.Unlock()
 }
-func (r *Report) Digest(id string, parts ...[]byte) {
+// DigestR records the level-independent observables of a reader run, keyed by the digest of
+// its input: streams produced by fastgo's own writer differ between acceleration levels
+// (match choices), and observables are only comparable across levels for equal inputs.
+func (r *Report) DigestR(id string, o *RObs, parts ...[]byte) {
+	if len(parts) == 0 {
+		parts = o.digestParts()
+	}
+	r.digestKeyed(id, o.InKey, parts...)
+}
+
+func (r *Report) Digest(id string, parts ...[]byte) { r.digestKeyed(id, "", parts...) }
+
+func (r *Report) digestKeyed(id string, key string, parts ...[]byte) {
 	h := sha256.New()
 	for _, p := range parts {
 		fmt.Fprintf(h, "%d:", len(p))
 		h.Write(p)
 	}
 	r.mu.Lock()
-	r.Digests[id] = hex.EncodeToString(h.Sum(nil))[:24]
+	r.Digests[id] = key + "/" + hex.EncodeToString(h.Sum(nil))[:24]
 	r.mu.Unlock()
 }
 // classer: a case that can tell whether it falls under a known finding that is independent of
